@@ -32,11 +32,18 @@ def panel_values(panel):
     v = np.maximum(0, np.round(v * 1024)) / 1024
     if panel.get('resp_int'):
       v = np.round(v)
+    em = panel.get('early', [1] * len(panel['level']))[g]
+    if em != 1:
+      v = v.copy()
+      v[:n_dates // 2] = v[:n_dates // 2] * em
     for fg_, ln in panel.get('flat', []):
       if fg_ == g:
         v = v.copy()
         v[n_dates - ln:] = float(np.round(v[n_dates - ln]))
     out.append(v)
+  for i, j, shift in panel.get('mirror', []):
+    # geo j = geo i run backwards in time plus a level shift: same spread (tied required impact), different mean
+    out[j] = out[i][::-1] + float(shift)
   return out
 
 
@@ -59,12 +66,17 @@ def build_frame(panel, scale=1.0, rename=None, date_shift=0, permute=True, id_in
     dates = [d + pd.Timedelta(days=int(date_shift)) for d in dates]
   as_int = panel['id_int'] if id_int is None else id_int
   missing = {(a, b) for a, b in panel.get('missing', [])}
+  nan_rows = panel.get('missing_as_nan', False)
   rows_d, rows_g, rows_v = [], [], []
   for gi, g in enumerate(panel['ids']):
     name = rename[g] if rename else g
     pid = present_id(name, as_int and all(x.isdigit() for x in (rename.values() if rename else panel['ids'])))
     for di in range(panel['n_dates']):
       if (gi, di) in missing:
+        if nan_rows and (gi + di) % 2 == 0:
+          rows_d.append(dates[di])
+          rows_g.append(pid)
+          rows_v.append(float('nan'))      # the row exists, its value is missing
         continue
       rows_d.append(dates[di])
       rows_g.append(pid)
@@ -72,7 +84,7 @@ def build_frame(panel, scale=1.0, rename=None, date_shift=0, permute=True, id_in
   if panel.get('date_str'):
     rows_d = [d.strftime('%Y-%m-%d') for d in rows_d]      # ISO strings sort chronologically
   df = pd.DataFrame({'date': rows_d, 'geo': rows_g, panel['resp_col']: rows_v})
-  if panel.get('resp_int') and scale == 1.0:
+  if panel.get('resp_int') and scale == 1.0 and not df[panel['resp_col']].isna().any():
     df[panel['resp_col']] = df[panel['resp_col']].astype('int64')
   if panel.get('extra_col'):
     df['unused'] = 1.5
@@ -213,12 +225,16 @@ class Space:
     geos = [str(g) for g in df['geo'].tolist()]
     dates = df['date'].tolist()
     vals = df[resp_col].tolist()
+    # a row whose value is missing (NaN) is a missing cell, exactly like an absent row
+    keep = [i for i, v in enumerate(vals) if v == v]
+    geos, dates, vals = [geos[i] for i in keep], [dates[i] for i in keep], [vals[i] for i in keep]
     self.geos = sorted(set(geos))
     self.dates = sorted(set(dates))
     di = {d: i for i, d in enumerate(self.dates)}
     self.M = {g: np.zeros(len(self.dates)) for g in self.geos}
     for g, d, v in zip(geos, dates, vals):
-      self.M[g][di[d]] = v
+      if v == v:
+        self.M[g][di[d]] = v
     n_win = min(len(self.dates), self.par.n_pretest_max)
     self.W = {g: self.M[g][len(self.dates) - n_win:] for g in self.geos}
     self.n_win = n_win
